@@ -529,7 +529,9 @@ async def _identity_case(loop, server_kwargs):
     import collections
 
     users = [W.UserSpec("alice", "secret", home="/"), W.UserSpec("bob", None, home="/")]
-    wd = W.World(loop, users, server_kwargs=server_kwargs)
+    server_kwargs = dict(server_kwargs)
+    backend = server_kwargs.pop("__backend", "memory")
+    wd = W.World(loop, users, server_kwargs=server_kwargs, backend=backend)
     await wd.start()
     out = []
     try:
@@ -617,7 +619,7 @@ def _identity_job(kw):
         return "HARNESS-ERROR %s: %s" % (type(e).__name__, e)
 
 
-IDENTITY_CONFIGS = [{}, {"maximum_connections": 5}, {"read_speed_limit": 1000}, {"read_speed_limit_per_connection": 1000, "write_speed_limit_per_connection": 1000}, {"data_ports": [41001, 41002, 41003, 41004]}, {"idle_timeout": 30, "socket_timeout": 5}]
+IDENTITY_CONFIGS = [{"__backend": "pathio"}, {"__backend": "async"}, {"__backend": "async", "path_timeout": 30}, {}, {"maximum_connections": 5}, {"read_speed_limit": 1000}, {"read_speed_limit_per_connection": 1000, "write_speed_limit_per_connection": 1000}, {"data_ports": [41001, 41002, 41003, 41004]}, {"idle_timeout": 30, "socket_timeout": 5}]
 
 
 def identity_check(ctx, res):
